@@ -6,8 +6,10 @@ import (
 	"encoding/hex"
 	"fmt"
 	"os"
+	"os/exec"
 	"path/filepath"
 	"sort"
+	"strconv"
 	"strings"
 	"sync"
 	"time"
@@ -35,6 +37,8 @@ type Engine struct {
 	freshMem map[string]*freshResult
 	dupOnce  sync.Once
 	dupOK    bool
+	cycOnce  sync.Once
+	cycOK    bool
 }
 
 // DuplicatesRejected is the premise of the only label-derived expectation of
@@ -61,6 +65,28 @@ func (e *Engine) DuplicatesRejected(scratch string) bool {
 		}
 	})
 	return e.dupOK
+}
+
+// CyclesRejected is the same kind of premise for the variant whose unused set is
+// cyclic: trusted only if wire rejects the combined set when an injector uses it.
+func (e *Engine) CyclesRejected(scratch string) bool {
+	e.cycOnce.Do(func() {
+		dir, err := os.MkdirTemp(scratch, "cyc-")
+		if err != nil {
+			return
+		}
+		defer os.RemoveAll(dir)
+		w, err := world.New(dir, world.LayoutMod, "", e.B.MarkerGo, Sources("pa", "probe_cycleset_used", 1))
+		if err != nil {
+			return
+		}
+		res := w.Exec(e.B.WireSim, w.AppDir, &world.Plan{Seed: 1, Iter: "asc"}, dir, nil, "gen", "./pa")
+		e.cycOK = res.Exit != 0 && strings.Contains(res.Stderr, "cycle for")
+		if !e.cycOK {
+			e.Stats.Counts.Add("premise_cycles_not_rejected_by_wire", 1)
+		}
+	})
+	return e.cycOK
 }
 
 // NewEngine creates an engine.
@@ -486,6 +512,56 @@ func (s *sim) fresh(cmd string, st Step) *freshResult {
 	return fr
 }
 
+// freshAlone runs `gen ./<p>` fault-free on a pristine tree holding only p (and lib, which
+// some variants import). Its DIAGNOSTICS decide whether p's label may be trusted (the premise
+// rule): what wire says about a package when it is generated on its own cannot be influenced
+// by the other packages of an invocation - unlike the reference run of the same command, in
+// which a defect in per-invocation bookkeeping may silence or invent diagnostics.
+func (s *sim) freshAlone(p *pkgState) *freshResult {
+	lib := s.pkg("lib")
+	key := fmt.Sprintf("%s|alone|%s=%s/%d", s.c.Layout, p.name, p.variant, p.n)
+	pkgs := []*pkgState{p}
+	if lib != nil && lib != p {
+		key += fmt.Sprintf("|lib=%s/%d", lib.variant, lib.n)
+		pkgs = []*pkgState{lib, p}
+	}
+	e := s.e
+	e.freshMu.Lock()
+	fr := e.freshMem[key]
+	if fr == nil {
+		fr = &freshResult{}
+		e.freshMem[key] = fr
+	}
+	e.freshMu.Unlock()
+	fr.once.Do(func() {
+		dir, err := os.MkdirTemp(s.scratch, "alone-")
+		if err != nil {
+			fr.infra = err.Error()
+			return
+		}
+		defer os.RemoveAll(dir)
+		w, err := world.New(dir, s.c.Layout, "", e.B.MarkerGo, sourcesOf(pkgs))
+		if err != nil {
+			fr.infra = err.Error()
+			return
+		}
+		res := w.Exec(e.B.WireSim, w.AppDir, &world.Plan{Seed: 1, Iter: "asc", Clock: 1000000000, Pid: 4242, Host: "simhost"}, dir, nil, "gen", "./"+p.name)
+		e.Stats.Commands.Add("fresh:gen-alone", 1)
+		if res.TimedOut {
+			fr.infra = "watchdog: fresh gen (package alone) timed out"
+			return
+		}
+		fr.exit = res.Exit
+		fr.stderr = w.Scrub(res.Stderr)
+		fr.stdout = w.Scrub(res.Stdout)
+		fr.out = map[string][]byte{}
+		if data, err := os.ReadFile(filepath.Join(w.AppDir, p.name, "wire_gen.go")); err == nil {
+			fr.out[p.name] = data
+		}
+	})
+	return fr
+}
+
 // diagLines returns the scrubbed stderr lines that are positioned in package p's directory.
 func diagLines(stderr, p string) []string {
 	var out []string
@@ -515,8 +591,9 @@ func premiseOK(fr *freshResult, p *pkgState) bool {
 				return true
 			}
 		}
-		// multi-line diagnostics: the stem may be on a continuation line
-		return len(d) > 0 && strings.Contains(fr.stderr, vi.Stem)
+		// multi-line diagnostics: the stem may be on a continuation line; a defect of a library set this package
+		// uses is positioned in the library's file (fr is the run of this package ALONE: all of stderr is about it)
+		return (len(d) > 0 || failedLine) && strings.Contains(fr.stderr, vi.Stem)
 	}
 	return true
 }
@@ -572,8 +649,15 @@ func (s *sim) cmd(idx int, st Step) string {
 		plan.Iter = "asc"
 	}
 	var extra []string
-	if st.NoGo {
+	if st.NoGo && st.GoFault == "" {
 		extra = append(extra, "PATH=/nonexistent-bin")
+	}
+	if st.NoGo && st.GoFault != "" {
+		shim, err := goShim(s.scratch)
+		if err != nil {
+			return "go shim: " + err.Error()
+		}
+		extra = append(extra, "PATH="+shim+string(os.PathListSeparator)+os.Getenv("PATH"), "VERIF_GO_FAULT="+st.GoFault)
 	}
 	if st.EnvTags {
 		gf := "-tags=integration,e2e"
@@ -601,8 +685,12 @@ func (s *sim) cmd(idx int, st Step) string {
 		e.Stats.FaultsFired.Add(f, 1)
 	}
 	if st.NoGo {
-		e.Stats.FaultsConf.Add("env:nogo", 1)
-		e.Stats.FaultsFired.Add("env:nogo", 1)
+		k := "env:nogo"
+		if st.GoFault != "" {
+			k = "env:go-" + st.GoFault
+		}
+		e.Stats.FaultsConf.Add(k, 1)
+		e.Stats.FaultsFired.Add(k, 1)
 	}
 	if st.Header == "missing" || st.Header == "dir" || st.Header == "notgo" {
 		e.Stats.FaultsConf.Add("real:header-"+st.Header, 1)
@@ -652,9 +740,15 @@ func (s *sim) cmd(idx int, st Step) string {
 	for _, n := range T {
 		p := s.pkg(n)
 		vi := Info(p.variant)
-		if fr != nil && !loadBrokenFresh(fr) && !premiseOK(fr, p) {
-			disagree = append(disagree, n)
-			continue
+		if fr != nil {
+			pa := s.freshAlone(p)
+			if pa.infra != "" {
+				return pa.infra
+			}
+			if !premiseOK(pa, p) {
+				disagree = append(disagree, n)
+				continue
+			}
 		}
 		switch vi.Class {
 		case ClassOK:
@@ -664,7 +758,7 @@ func (s *sim) cmd(idx int, st Step) string {
 		case ClassTypeErr:
 			typeErrT = append(typeErrT, n)
 		}
-		if vi.BadSet && e.DuplicatesRejected(s.scratch) {
+		if vi.BadSet && (vi.Name == "ok_cycleset" && e.CyclesRejected(s.scratch) || vi.Name != "ok_cycleset" && e.DuplicatesRejected(s.scratch)) {
 			badSet = true
 		}
 	}
@@ -1170,4 +1264,45 @@ func (s *sim) followUps(idx int, st Step, okT []string, outName string) string {
 		}
 	}
 	return ""
+}
+
+// goShim writes (once per scratch directory) a `go` executable that stands in
+// front of the real tool: every `go list` fails the way VERIF_GO_FAULT says -
+// exits 1 without output, is killed half-way through its output, or is killed
+// after the first complete package record - everything else is passed through.
+// The loader is on the trusted side of the seam, but it can FAIL; this is the
+// subprocess counterpart of the file-I/O faults.
+func goShim(scratch string) (string, error) {
+	dir := filepath.Join(scratch, "goshim")
+	path := filepath.Join(dir, "go")
+	if _, err := os.Stat(path); err == nil {
+		return dir, nil
+	}
+	real, err := exec.LookPath("go")
+	if err != nil {
+		return "", err
+	}
+	if err := os.MkdirAll(dir, 0777); err != nil {
+		return "", err
+	}
+	script := "#!/bin/bash\nreal=" + strconv.Quote(real) + `
+if [ "$1" != "list" ]; then exec "$real" "$@"; fi
+case "$VERIF_GO_FAULT" in
+  list-exit1)
+    echo "go: simulated failure of go list" >&2; exit 1;;
+  list-killed-midway)
+    out=$("$real" "$@" 2>/dev/null); printf '%s' "${out:0:$(( ${#out} / 2 ))}"; kill -9 $$;;
+  list-partial)
+    "$real" "$@" 2>/dev/null | awk '{print} /^}$/ {exit}'; kill -9 $$;;
+esac
+exec "$real" "$@"
+`
+	tmp := path + fmt.Sprintf(".tmp%d", os.Getpid())
+	if err := os.WriteFile(tmp, []byte(script), 0777); err != nil {
+		return "", err
+	}
+	if err := os.Rename(tmp, path); err != nil {
+		return "", err
+	}
+	return dir, nil
 }
